@@ -40,6 +40,11 @@ def resolve_file(f):
             .replace('{clastic}', os.path.dirname(clastic.__file__)))
 
 
+PATHS = ['/', '/x/y', '/clastic_assets/nope', '/a//b/', '/%3Cb%3E', '/clastic_assets/..', '/clastic_assets/../flaw.py',
+         '/clastic_assets/x/../../y', '/clastic_assets//etc/hosts', '/clastic_assets/..hidden', '/clastic_assets/', '/clastic_assets',
+         '/clastic_assets/common.css/', '/clastic_assets/%2e%2e/%2e%2e/setup.py']
+
+
 class CustomError(Exception):
     pass
 
@@ -283,7 +288,7 @@ class C20(Check):
                 ops.append({'direct': {'text': rng.choice(['empty', 'none', 'bytes', 'number', 'random-printable', 'non-printable', 'markup',
                                                            'template', 'traceback', 'list']),
                                        'files': rng.choice(['none', 'empty', 'long', 'markup', 'mixed']),
-                                       'requests': [[rng.choice(['GET', 'POST', 'HEAD']), rng.choice(['/', '/x/y', '/clastic_assets/nope', '/a//b/'])]]}})
+                                       'requests': [[rng.choice(['GET', 'POST', 'HEAD']), rng.choice(PATHS)]]}})
                 continue
             last = i == n - 1
             crash = frng.random() < 0.75
@@ -294,7 +299,7 @@ class C20(Check):
                      'mon_files': frng.choice([None, [], FILES[:1], FILES, frng.sample(FILES, 3)]), 'mon_pos': frng.choice([0, 3, 9999])}
             if child['rc'] == 1 and not child['stderr'] and not child['noise']:
                 child['noise'] = ['boom']
-            fs = {'requests': [[rng.choice(['GET', 'GET', 'POST', 'HEAD']), rng.choice(['/', '/x/y', '/clastic_assets/nope', '/a//b/', '/%3Cb%3E'])]
+            fs = {'requests': [[rng.choice(['GET', 'GET', 'POST', 'HEAD']), rng.choice(PATHS)]
                                for _ in range(rng.randint(1, 3))],
                   'end': 'interrupt' if last else rng.choice(['changed', 'changed', 'interrupt', 'exit5'])}
             ops.append({'child': child, 'failsafe': fs})
@@ -315,6 +320,8 @@ class C20(Check):
         if method == 'HEAD':
             return
         body = ex.body.decode('utf8', 'replace')
+        if path.startswith('/clastic_assets/') and not (ex.header('Content-Type') or '').startswith('text/html'):
+            return      # a real asset of the failsafe page (stylesheet), not the page itself
         if MARKUP in body or '<b id=simx>' in body:
             return res.violate(K + 'page/markup-unescaped', ctx + ' -> markup from the error text / file names appears verbatim')
         if isinstance(text, str):
